@@ -19,19 +19,32 @@ DIGITS = "0123456789"
 @st.composite
 def decimals(draw, max_len):
     shape = draw(st.sampled_from(["uniform", "nines", "power", "power_d", "run", "blocks", "small", "uniform",
-                                  "round_blocks", "special_length"]))
+                                  "round_blocks", "round_blocks", "special_length", "reciprocal", "nine_run_tail"]))
     if shape == "small":
         return str(draw(st.integers(0, 999)))
     n = draw(st.one_of(st.integers(1, 12), st.integers(1, max_len), st.integers(1, max_len),
                        st.integers(4290, 6000) if draw(st.integers(0, 9)) == 0 else st.integers(1, 60)))
     if shape == "round_blocks":
-        # short prefixes followed by runs of zeros: block products that are exact multiples of powers of ten
+        # short prefixes followed by runs of zeros: block products / quotients that are exact multiples of powers of
+        # ten, interior all-zero blocks, and small tails
         parts = []
         for _ in range(draw(st.integers(1, 6))):
-            parts.append(draw(st.sampled_from(["5", "15", "25", "125", "2", "4", "75", "375", "5", "625", "1", "35"]))
-                         + "0" * draw(st.integers(4, 12)))
-        text = "".join(parts) + draw(st.sampled_from(["", "", "5", "00", "7"]))
+            prefix = draw(st.one_of(st.sampled_from(["5", "15", "25", "125", "2", "4", "75", "375", "8", "625", "1",
+                                                     "35", "3", "6", "12", "16", "24", "36"]),
+                                    st.integers(1, 999).map(str)))
+            parts.append(prefix + "0" * draw(st.one_of(st.integers(1, 12), st.sampled_from([8, 9, 10, 17, 18, 19, 27]))))
+        text = "".join(parts) + draw(st.one_of(st.sampled_from(["", "", "5", "00", "7", "2"]), st.integers(0, 99).map(str)))
         return text.lstrip("0") or "0"
+    if shape == "reciprocal":
+        # numbers around 10^j / b: the product with b just reaches (or just misses) the next power of ten
+        j = draw(st.integers(1, 80))
+        b = draw(st.integers(2, 9))
+        return str(max(0, -(-10 ** j // b) + draw(st.integers(-2, 2))))
+    if shape == "nine_run_tail":
+        # ...9999d: a run of nines that ends in another digit (carries that start one place left of the run)
+        head = draw(st.text(alphabet=DIGITS, min_size=0, max_size=12)).lstrip("0")
+        return (head + "9" * draw(st.integers(1, 30)) + draw(st.sampled_from("012345678"))
+                + "9" * draw(st.integers(0, 2))).lstrip("0") or "0"
     if shape == "special_length":
         n = draw(st.sampled_from([9, 18, 27, 64, 128, 255, 256, 257, 511, 512, 513, 768, 1023, 1024, 1025, 2048,
                                   4096, 4300, 4301]))
@@ -147,10 +160,54 @@ def evaluate(case):
     return Outcome(True, nontrivial, classes)
 
 
+@st.composite
+def chain_cases(draw, tier):
+    start = draw(decimals(60 if tier == "quick" else 300))
+    steps = draw(st.lists(st.tuples(st.sampled_from(["add", "sub", "mul", "div", "mul", "add"]), st.integers(0, 9),
+                                    st.integers(0, 3)), min_size=2, max_size=12))
+    return {"start": start, "steps": [list(step) for step in steps]}
+
+
+def evaluate_chain(case):
+    """A history: every result string is fed into a later call (as bit_to_number / encode do), and older results are
+    used again after newer ones were derived from them."""
+    dsw = import_dsw()
+    functions = {"add": dsw.calculus_addition, "sub": dsw.calculus_subtraction,
+                 "mul": dsw.calculus_multiplication, "div": dsw.calculus_division}
+    strings, values = [case["start"]], [o.dec_to_int(case["start"])]
+    labels = ["chain_steps:%s" % ("2-5" if len(case["steps"]) < 6 else "6-12")]
+    for op, base, back in case["steps"]:
+        index = max(0, len(strings) - 1 - back)  # the latest result, or one a few steps older
+        if back:
+            labels.append("older_result_reused")
+        number, value = strings[index], values[index]
+        if op == "div" and base == 0:
+            base = 7
+        if op == "sub" and value < base:
+            op = "add"
+        want = {"add": value + base, "sub": value - base, "mul": value * base, "div": value // base if base else 0}[op]
+        got = lib_call(functions[op], number=number, base=str(base))
+        if isinstance(got, Raised):
+            return bad("%s(%r.., %d) raised %r inside a chain of calls" % (op, number[:40], base, got), labels)
+        if op == "div":
+            got, remainder = got
+            if remainder != str(value % base):
+                return bad("div(%r.., %d) remainder %r, exact %d (inside a chain)" % (number[:40], base, remainder,
+                                                                                       value % base), labels)
+        if got != o.int_to_dec(want):
+            return bad("%s(%r.. [%d digits], %d) = %r inside a chain of calls on earlier results, exact result %s"
+                       % (op, number[:40], len(number), base, str(got)[:60], o.int_to_dec(want)[:60]), labels)
+        strings.append(got)
+        values.append(want)
+    return Outcome(True, len(case["steps"]) >= 3, sorted(set(labels)))
+
+
 SUBCHECKS = [
     SubCheck("arith", evaluate, strategy=cases, examples=(20000, 400000), shards=(16, 16),
              floors={"carry": 2000, "len>3": 5000, "operand>4": 4000, "sub": 2000, "div": 2000, "len>4300": 100, "other_thread": 1000},
              rule=RULE),
+    SubCheck("call_chains", evaluate_chain, strategy=chain_cases, examples=(3000, 40000), shards=(8, 16),
+             floors={"older_result_reused": 1000}, rule=RULE),
 ]
 
 TECHNIQUE = "property-based testing (Hypothesis) against a Python-int reference, with schoolbook-state coverage accounting"
